@@ -197,7 +197,7 @@ def run(mode, job) -> JobResult:
     for names in chunk:
         for endian in "<>":
             for align in (False, True):
-                check_case(mode, tuple(names), endian, align, res, tier)
+                sc.guarded(res, mode, tuple(names), endian, align, lambda: check_case(mode, tuple(names), endian, align, res, tier))
     return res
 
 
